@@ -25,7 +25,7 @@ class C16(BaseCheck):
   REQUIRED_CLASSES = ('singleton', 'refcount', 'shared', 'concurrent-first-requests', 'replaced-after-failure',
                       'surplus-close', 'reopen-after-last-close', 'same-key', 'different-key',
                       'underlying-closed-while-held', 'underlying-state-changes',
-                      'requester-abandoned-while-opening', 'several-holders', 'holder-gone-before-connect', 'concurrent-holders', 'open-during-yielding-last-close', 'open-count-zero-while-held',
+                      'requester-abandoned-while-opening', 'several-holders', 'holder-gone-before-connect', 'concurrent-holders', 'open-during-yielding-last-close', 'open-count-zero-while-held', 'underlying-open-raises',
                       'surplus-close-from-inside-close', 'underlying-close-raises', 'underlying-open-fails-later')
   QUICK_CASES = 1500
   THOROUGH_CASES = 120000
@@ -317,6 +317,9 @@ class C16(BaseCheck):
         return self.state_
 
       def Open(self):
+        if open_raises[0]:
+          # the connection cannot even be attempted (no file descriptors, bad address family, ...)
+          raise OSError(24, 'Too many open files')
         ar = AsyncResult()
         log.append(('open', ar))
         marks.append('open')
@@ -349,6 +352,7 @@ class C16(BaseCheck):
       def AsyncProcessResponse(self, *a):
         pass
     close_behaviour = [None]
+    open_raises = [False]
     marks = []
     under = Under()
     rc = RefCountedSink(under)
@@ -378,6 +382,37 @@ class C16(BaseCheck):
             classes.add('underlying-open-fails-later')
             ar_.set_exception(Exception('connect failed'))
           env.settle()
+      if count == 0 and rng.random() < 0.08:
+        # the underlying Open() raises for a first holder; another holder opens the shared sink; the
+        # first one releases what it tried to take (the usual clean-up); then the other one closes
+        classes.add('underlying-open-raises')
+        open_raises[0] = True
+        try:
+          rc.Open()
+        except OSError:
+          pass
+        open_raises[0] = False
+        rc.Open()
+        c0_ = sum(1 for e in log if e[0] == 'close')
+        try:
+          rc.Close()
+        except OSError:
+          pass
+        out.obligations += 2
+        c1_ = sum(1 for e in log if e[0] == 'close')
+        if c1_ != c0_:
+          out.violate('refcount:early-close', 'the clean-up Close() of a holder whose Open() had raised closed the underlying '
+                      'sink under the holder that opened after it', {'after_open_raised': True})
+        try:
+          rc.Close()
+        except OSError:
+          pass
+        c2_ = sum(1 for e in log if e[0] == 'close')
+        if c2_ - c0_ != 1:
+          out.violate('refcount:last-close', 'after an Open() that raised, one further Open() and two Close() calls the underlying '
+                      'sink was closed %d times' % (c2_ - c0_), {'after_open_raised': True})
+        current_ar = None
+        continue
       if rng.random() < 0.5 and count < holders * 2:
         got = rc.Open()
         opens = sum(1 for e in log if e[0] == 'open') - opens_before
